@@ -282,6 +282,105 @@ def classify(T, t1, t2, parse):
     return None
 
 
+# ------------------------------------------------------------------ reuse histories (instance state)
+
+def reusable(T):
+    """(name, options, make_reused, make_fresh): make_reused() is called ONCE per history (for auto_head_tail it
+    returns the module-level singleton), make_fresh() before every comparison"""
+    from luqum.utils import UnknownOperationResolver as R, OpenRangeTransformer as O
+    import luqum.auto_head_tail as AHT
+    from luqum.visitor import TreeTransformer
+    out = []
+    for nm, cl in (("none", None), ("and", T.AndOperation), ("or", T.OrOperation), ("bool", T.BoolOperation)):
+        out.append(("resolve", {"resolve_to": nm}, (lambda cl: lambda: R(cl))(cl), (lambda cl: lambda: R(cl))(cl)))
+    for mg in (False, True):
+        out.append(("open_range", {"merge_ranges": mg}, (lambda mg: lambda: O(merge_ranges=mg))(mg),
+                    (lambda mg: lambda: O(merge_ranges=mg))(mg)))
+    out.append(("auto_head_tail (module-level singleton)", {}, lambda: AHT.auto_head_tail, lambda: AHT.AutoHeadTail()))
+    out.append(("copy", {}, lambda: TreeTransformer().visit, lambda: TreeTransformer().visit))
+    return out
+
+
+def edit_in_place(T, r, tree):
+    """a small in-place edit that keeps the printed form lexically safe; returns its description"""
+    import re
+    nodes = [n for _, n in gentree.all_nodes(tree)]
+    words = [n for n in nodes if type(n) is T.Word and re.fullmatch(r"[a-z][a-z0-9]*", n.value)]
+    ranges = [n for n in nodes if type(n) is T.Range]
+    choice = r.choice(["word", "word", "range", "head"])
+    if choice == "word" and words:
+        n = r.choice(words)
+        old = n.value
+        n.value = old + "q"
+        return "Word(%r).value = %r" % (old, n.value)
+    if choice == "range" and ranges:
+        n = r.choice(ranges)
+        n.include_low = not n.include_low
+        return "Range.include_low = %r" % n.include_low
+    tree.head = " " + tree.head
+    return "root.head = ' ' + root.head"
+
+
+def snapshot(tree):
+    try:
+        return lib.g_item(tree)
+    except lib.Unmodelled:
+        return repr(tree) + tree.__str__(head_tail=True)
+
+
+def reuse_histories(T, parse, r, pool, n_hist, res, dist):
+    """one instance of each shipped transformer applied to 2-6 parsed queries in a row, then to the same tree object
+    again after an in-place edit (once or twice); every result must be what a FRESH instance returns for the tree as
+    it is at that moment (lib.g_item text), and is judged by the print -> re-parse -> meaning oracle"""
+    for name, opts, make_reused, make_fresh in reusable(T):
+        for _ in range(n_hist):
+            inst = make_reused()
+            steps = []
+            queries = [r.choice(pool) for _ in range(r.randrange(2, 7))]
+            tree = None
+            plan = [("parse", q) for q in queries] + [("edit", None)] * r.randrange(1, 3)
+            if r.random() < 0.5:          # come back to an earlier query text (a new, equal tree object)
+                plan.append(("parse", queries[0]))
+            for idx, (what, q) in enumerate(plan):
+                if what == "parse":
+                    tree = parse(q)
+                    steps.append({"query": q})
+                else:
+                    steps.append({"edit_in_place": edit_in_place(T, r, tree)})
+                payload = {"history": list(steps), "index": idx, "transformer": name, "options": opts,
+                           "reused_instance": True}
+                dist["reuse_steps"] += 1
+                try:
+                    got = inst(tree)
+                    got_s = snapshot(got)
+                except Exception as e:
+                    got, got_s = None, "raised " + repr(e)
+                try:
+                    want = make_fresh()(tree)
+                    want_s = snapshot(want)
+                except Exception as e:
+                    want, want_s = None, "raised " + repr(e)
+                if got_s != want_s:
+                    dist["reuse_mismatches"] += 1
+                    res.failures.append((dict(payload, why="a reused transformer instance does not return what a fresh "
+                                              "instance returns for the tree as it is now",
+                                              reused=(got.__str__(head_tail=True) if got is not None else got_s)[:300],
+                                              fresh=(want.__str__(head_tail=True) if want is not None else want_s)[:300]),
+                                         None))
+                if got is None:
+                    continue
+                pr = got.__str__(head_tail=True)
+                k2, t2 = PG.impl_parse(pr, parse)
+                ok = k2 == "ok" and t2 is not None and same_meaning(T, t2, got)[0]
+                if not ok:
+                    t2 = t2 if k2 == "ok" else None
+                    fid = classify(T, got, t2, parse)
+                    dist["reuse_finding_class"][str(fid)] = dist["reuse_finding_class"].get(str(fid), 0) + 1
+                    res.failures.append((dict(payload, printed=pr, why="(reuse history) parse(str(T(tree))) does not mean "
+                                              "what T(tree) means"), fid))
+        dist["reuse_histories"] += n_hist
+
+
 # ------------------------------------------------------------------ correspondence
 
 def correspond(model_ok, res):
@@ -385,6 +484,10 @@ def correspond(model_ok, res):
                                                        lib.g_bool(do_verdict), verdict))
             payloads.append(payload)
 
+    # instance state (outside the value model): reuse histories on the implementation
+    dist.update(reuse_histories=0, reuse_steps=0, reuse_mismatches=0, reuse_finding_class={})
+    reuse_histories(T, parser.parse, r, parsed_strings, 8 if quick else 80, res, dist)
+
     res.cases = len(cases)
     res.nontrivial = len(seen)
     res.rule = ("grammar-directed parsed queries (every production, random Unicode-whitespace layout, chains mixing "
@@ -393,7 +496,11 @@ def correspond(model_ok, res):
                 "add_head in {'', newline} for the model only. The Python oracle runs on every (query, transformer) "
                 "and so do the composed Coq models (vm_compute), verdicts compared when the truth table is exhaustive "
                 "(<= 10 atoms); non-trivial = distinct "
-                "(query, shipped transformer) whose parsed tree has more than one node")
+                "(query, shipped transformer) whose parsed tree has more than one node. REUSE histories (implementation only): "
+                "one instance of each shipped transformer (resolver x 4 targets, open ranges x merge, the module-level "
+                "auto_head_tail, a TreeTransformer) applied to 2-6 parsed queries in a row and to the same tree object "
+                "again after in-place edits; each result compared with a fresh instance's (lib.g_item text) and judged "
+                "by the same oracle")
     res.samples = payloads[150:156] or payloads[:6]
     res.distribution = dist
     if not model_ok:
@@ -450,13 +557,17 @@ SPEC = {
                  "C11_parsed_wellformed",
                  "C11_copy_partial", "C11_copy_total", "C11_resolve_no_unknown_partial",
                  "C11_equal_tree_modulo_lexing", "C11_copy_modulo_lexing", "C11_aht_modulo_lexing", "C11_aht_total"],
+    # auto_head_tail end to end: token-granular lossless theorem (proofs/TokenLayoutProofs.v) + L-respace
+    "more": [{"module": "C11p", "target": "props/C11p.vo",
+              "theorems": ["C11_aht_partial", "C11_fills_partial", "C01_token_layout", "C01_layout_spells"]}],
     "correspond": correspond,
     "statement": "for every parsed query t and shipped transformer T (copy, auto_head_tail, resolver x 4 targets, open "
                  "ranges x merge, resolve-then-open-range; add_head = one blank), parse(str(T(t))) succeeds and has the "
                  "boolean meaning of T(t) for every valuation of the atoms and both default operators: REFUTED for every "
                  "shipped transformer (F10 'x OR y z'; F10b 'a(b)'; F10c 'a b' to BoolOperation; F1 '-xT12 :30'). Proved: "
                  "the default copy under C01's guard (and copy / auto_head_tail whenever the printed tree lexes to the "
-                 "query's tokens); well-definedness of the meaning",
+                 "query's tokens); well-definedness of the meaning. C11_aht_partial (C11p.v): the statement for "
+                 "auto_head_tail on every parsed query without ghost event (C01's guard, excludes F1)",
     "level_text": "Coq proof (PARTIAL) + correspondence. Proved: (1) the full statement is refuted by computed witnesses, one "
                   "per defect class, and C11_every_transformer_refuted: NO shipped transformer satisfies it on all parsed "
                   "queries (F1's fused field breaks even the default copy); (2) the boolean meaning `sem` is a function of "
@@ -470,8 +581,14 @@ SPEC = {
                   "and auto_head_tail satisfy the statement whenever their printed result lexes to the query's tokens; "
                   "auto_head_tail never raises on a parsed query; (6) C11_resolve_no_unknown_partial: on a query without "
                   "implicit operation the resolver (every target, Lucene mode, any add_head) is the default copy, hence "
-                  "satisfies the statement under the copy's guard. NOT proved: the positive statement for the resolver and "
-                  "the open-range transformer (and the lexing hypothesis for auto_head_tail): these are validated on every "
+                  "satisfies the statement under the copy's guard; (7) C11p.v, END TO END for auto_head_tail: C11_aht_partial = "
+                  "the statement for auto_head_tail on every parsed query without ghost event (C01's guard; excludes F1, "
+                  "the witness of C11_aht_refuted). It stands on C01_token_layout (ANY LR tables: the layout of the parsed "
+                  "tree is, token by token, the layout of the query's tokens - an invariant of the 25 semantic actions), on "
+                  "daht_fills (auto_head_tail only sets empty heads/tails to one blank) and on the lexer theorem L-respace; "
+                  "C11_fills_partial is the same for ANY tree that only fills empty heads/tails of the parsed one. "
+                  "NOT proved: the positive statement for the resolver and "
+                  "the open-range transformer: these are validated on every "
                   "run by the correspondence, which evaluates the executable statement both on the real code "
                   "(parser.parse(str(T(tree))), truth tables over <= 10 atoms, both defaults) and on the composed Coq models "
                   "(Parser.parse (Print.print (run_t T t)) and meaning_eqb by vm_compute) and compares printed strings, "
@@ -488,5 +605,9 @@ SPEC = {
         "Lucene/Elasticsearch boolean query; boosts are kept as part of the atoms below them",
     ],
     "assumptions": ["trees come from luqum's parser (programmatic trees are outside the property)",
+                    "state kept on a transformer instance or keyed on id(tree) is outside the value model (the Coq "
+                    "transformers are functions of the tree): it is covered on the implementation by the reuse "
+                    "histories of harness/c11.py (reused instance vs fresh instance, sequences of queries, same object "
+                    "after in-place edits)",
                     "add_head is the default single blank for the statement; other values only tie the models"],
 }
